@@ -360,9 +360,12 @@ def symbolic_numpy():
     ENGINE.active = True
     saved.append((numpy, "pi", numpy.pi))
     numpy.pi = sym_pi()
+    from . import basis_hooks
+    basis_hooks.install()
     try:
         yield
     finally:
+        basis_hooks.uninstall()
         for mod, name, real in saved:
             setattr(mod, name, real)
         ENGINE.active = False
